@@ -261,14 +261,27 @@ CLAIMED = {
              "iwt1_is_adjoint, fwt1_isometry, fwt1_length; separable N-d at level 1 over an arbitrary list of axes: "
              "fwtn_level1_isometry/_adjoint/_pr (applyAxes_*; tied to the executed model by fwt1_level1_eq); complete_of_qmf_pair: "
              "Complete follows from the orthonormality of dec_lo alone when dec_hi is its alternating flip (fwt1_iwt1_id_qmf, "
-             "fwt1_isometry_qmf). Tie: translator + every run checks that all 75 orthogonal pywt wavelets satisfy the "
+             "fwt1_isometry_qmf); MULTI-LEVEL N-D (Props/C10Ml.lean, model Model/C10Nd.lean): pywt.wavedecn's recursion on the approximation "
+             "block and coeffs_to_array / array_to_coeffs' block layout (detail blocks at the accumulated offsets, zero filling where "
+             "2*n_{j+1} > n_j) as per-axis level maps (levelMap) + sub-box overwrite (fwtnRec / iwtnRec), with sigpy's pad-to-even / "
+             "centre crop on every axis: fwtn_isometry, fwtn_adjoint (any filters, arbitrary coefficient arrays), fwtn_pr for EVERY "
+             "level count (level=None included), rank, duplicate-free axes list and shape (odd sizes), stated on the advertised box "
+             "(fwtnOutShape_eq_waveShape: that box is waveShape = Wavelet.oshape); zShape_eq_gen / padMap_eq_gen tie the padding step "
+             "to the generated zshape formula and the C09 resize model; maxLevel_spec (level=None is the largest J with (L-1)2^J <= n); "
+             "the driver executes tabulating twins fwtnM/iwtnM proved equal to fwtn/iwtn (fwtnM_app, iwtnM_app). "
+             "Tie: translator + every run checks that all 75 orthogonal pywt wavelets satisfy the "
              "orthonormality/completeness sums (1e-10), that dec_hi is the alternating flip of dec_lo (exact), and that pywt.dwt/idwt/"
              "wavedec/waverec, sp.fwt/iwt, Wavelet(.H) equal the exact rational Lean model (1e-10), shapes, packing round trip, "
-             "N-d level 1 = per-axis composition of the model, recorded pywt call arguments.",
+             "N-d level 1 = per-axis composition of the model, multi-level N-d sp.fwt / sp.iwt / Wavelet(.H) value by value against the "
+             "executed fwtnM / iwtnM (ndlevels stream: odd sizes, axes subsets incl. negative/reordered, levels None/1/2/3, arbitrary "
+             "coefficient arrays), pywt.dwt_max_level vs maxLevel, recorded pywt call arguments.",
         note="Trusted: Lean kernel; translator gen_c10; pywt's filter taps and C implementation are a CONTRACT validated every run, "
-             "not proved; the general Orthonormal -> Complete (g not assumed to be the flip of h) is not proved; multi-level N-d "
-             "(wavedecn recurses on the approximation block; coeffs_to_array block layout) is validated by correspondence and the "
-             "oracle (1-D all levels and N-d level 1 proved).",
+             "not proved (incl. that pywt's Python multilevel/packing layer computes the modelled recursion and layout: validated value "
+             "by value on every run); the general Orthonormal -> Complete (g not assumed to be the flip of h) is not proved - it is the "
+             "left-inverse = right-inverse property of the 2x2 polyphase matrix over Laurent polynomials (Matrix.mul_eq_one_comm); the "
+             "translation of the finsum identities into that form is missing, and the flip hypothesis used instead is checked bit-for-bit; "
+             "axes are modelled reduced mod ndim and duplicate-free (pywt raises otherwise); complex data = real and imaginary parts "
+             "separately (oracle).",
         technique="Lean 4 proof (glue + filter-bank theorems) + contract validation of PyWavelets by exact-rational correspondence",
         design="DESIGN.md §3 C10, §9"),
     "C14": dict(
